@@ -78,6 +78,18 @@ def runSched (pol : Policy) (now : Int) (dsv : Nat) (tags : List Nat) (w : Write
   | true :: r, st => runSched pol now dsv tags w L r (stepC pol now dsv tags st)
   | false :: r, st => runSched pol now dsv tags w L r (stepW w L st)
 
+/-- a RESTORE writer: its single storage step publishes the content of an old manifest `O` as the next version
+    (`Dataset::restore`: `Operation::Restore` builds the new manifest from the old one; no new data files) -/
+def stepRestore (O : Manifest) (path : Path) (v : Nat) (ts : Int) (st : RState) : RState :=
+  { st with
+    store := { st.store with
+      mans := st.store.mans ++ [{ path := path, mtime := ts, size := 0, m := { O with version := v, ts := ts } }] }
+    wpc := .committed }
+
+def iterC (pol : Policy) (now : Int) (dsv : Nat) (tags : List Nat) : Nat → RState → RState
+  | 0, st => st
+  | n + 1, st => iterC pol now dsv tags n (stepC pol now dsv tags st)
+
 /-- the premises of the race theorem: the writer's objects are new (paths not in use, mentioned by no manifest), younger
     than the threshold when cleanup looks, `delete_unverified` is off; `L` is the latest version, at least the handle's -/
 structure Setup (pol : Policy) (now : Int) (dsv : Nat) (w : Writer) (s0 : Store) (L : MFile) : Prop where
